@@ -340,7 +340,13 @@ pub struct ModelReport {
 
 pub fn check_model(c: &ModelCase) -> Result<ModelReport, Fail> {
     let src = c.spec.ver;
-    let m = build_model(&c.spec);
+    let mut m = build_model(&c.spec);
+    if let Some(h) = c.spec.hdr_version {
+        // an intermediate build number of the same version: written, parsed and re-written under that number
+        // (conversions are defined between the named versions and are judged on the canonical numbers)
+        m.header.version = h;
+        return Ok(ModelReport { rejected: match model_roundtrip("intermediate-header-version:", &m, h)? { Outcome::Rejected(k) => Some(k), _ => None } });
+    }
     if let Outcome::Rejected(k) = model_roundtrip("", &m, src.num())? {
         return Ok(ModelReport { rejected: Some(k) });
     }
